@@ -91,6 +91,30 @@ def compat_cells():
                 if src is None:
                     continue
                 yield ("compat:%s:%s<-%s" % (sink, t, v), src, compatible(t, v))
+    yield from array_compat_cells()
+
+
+# array-typed targets: 'null only for class references' and 'only if it has that type' also hold where the declared type is an array
+ARRAY_TYPES = ["int[]", "float[]", "Base[]"]
+ARRAY_VALUES = {"null": "null", "int": "gint()", "Base": "gBase()", "int[]": "ai", "float[]": "af"}
+ARRAY_LOCALS = "int[] ai = {1, 2}; float[] af = {1.5f, 2.5f}; "
+
+
+def array_compat_cells():
+    for t in ARRAY_TYPES:
+        for v, e in ARRAY_VALUES.items():
+            ok = (t == v)
+            progs = {
+                "initialiser": GETTERS + "function main() -> void { %s%s x = %s; }\n" % (ARRAY_LOCALS, t, e),
+                "function-arg": GETTERS + "function take(%s p) -> void { }\nfunction main() -> void { %stake(%s); }\n" % (t, ARRAY_LOCALS, e),
+                "method-arg": GETTERS + "class H { public constructor() -> H = default; public function take(%s p) -> void { } }\nfunction main() -> void { %sH h = new H(); h.take(%s); }\n" % (t, ARRAY_LOCALS, e),
+                "ctor-arg": GETTERS + "class H { public constructor(%s p) -> H { } }\nfunction main() -> void { %sH h = new H(%s); }\n" % (t, ARRAY_LOCALS, e),
+                "ctor-arg-in-return": GETTERS + "class H { public constructor(%s p) -> H { } }\nfunction mk() -> H { %sreturn new H(%s); }\nfunction main() -> void { }\n" % (t, ARRAY_LOCALS, e),
+            }
+            if v in ("null", "int", "Base"):      # a super(...) argument has no locals to draw an array from
+                progs["super-arg"] = GETTERS + "class H { public constructor(%s p) -> H { } }\nclass S extends H { public constructor() -> S { super(%s); } }\nfunction main() -> void { }\n" % (t, e)
+            for sink, src in progs.items():
+                yield ("compat:%s:%s<-%s" % (sink, t, v), src, ok)
 
 
 # ---------------------------------------------------------------------------------------------------------------------------
